@@ -105,7 +105,7 @@ func (e *C01) getPlan(tier string, seed uint64) *c01Plan {
 func (e *C01) ID() string    { return "C01" }
 func (e *C01) Level() string { return "fault_enumeration" }
 func (e *C01) Rule() string {
-	return "cases: (a) for every corpus/generated file x natural entry point: every cut point k (dense prefix, every walker-found structure boundary +-1, seeded sample, len-1, len) x 5 terminal reader behaviours (EOF, data+EOF, injected error, ErrUnexpectedEOF, failing Seek); (b) structure-aware malformations (1-3 operators at walker-found size/count/offset/type fields, flips, deletions, duplications, splices) run through the file's natural entries plus two random entries and random reader kinds / chunk schedules; (c) random byte strings of length 0..4096 through every entry; (d) grammar-based shapes: tightly packed trees of the box types the ISOBMFF reader dispatches on (meta/hdlr/pitm/iinf+infe/iloc/iref/iprp, moov/Canon uuid/CNCV/CTBO/CMT1-4/THMB, PRVW) and small TIFF directories over the tags the Exif reader interprets, with boundary-biased sizes, counts, versions, field widths, types and offsets in several cooperating fields at once, through the family's natural entries with clean and faulting readers. A call is non-trivial when it consumed more than 24 bytes or returned a non-sniffing error; distinct = distinct (entry, outcome class with digits stripped, log4 bucket of bytes delivered)."
+	return "cases: (a) for every corpus/generated file x natural entry point: every cut point k (dense prefix, every walker-found structure boundary +-1, seeded sample, len-1, len) x 5 terminal reader behaviours (EOF, data+EOF, injected error, ErrUnexpectedEOF, failing Seek); (b) structure-aware malformations (1-3 operators at walker-found size/count/offset/type fields, flips, deletions, duplications, splices) run through the file's natural entries plus two random entries and random reader kinds / chunk schedules; (c) random byte strings of length 0..4096 through every entry; (d) grammar-based shapes: tightly packed trees of the box types the ISOBMFF reader dispatches on (meta/hdlr/pitm/iinf+infe/iloc/iref/iprp, moov/Canon uuid/CNCV/CTBO/CMT1-4/THMB, PRVW) and small TIFF directories over the tags the Exif reader interprets, with boundary-biased sizes, counts, versions, field widths, types and offsets in several cooperating fields at once, through the family's natural entries with clean and faulting readers; every 40th shape is one tiny unit (a minimal box of a known type in a looping context, APP1 segment, PNG chunk, IFD entry, one-entry IFD chain, XMP token) tiled to 20..300 KB. A call is non-trivial when it consumed more than 24 bytes or returned a non-sniffing error; distinct = distinct (entry, outcome class with digits stripped, log4 bucket of bytes delivered)."
 }
 func (e *C01) Assumptions() []string {
 	return []string{"panics and fatal errors are observed by recover() in the worker and by the exit status/stderr of the isolated worker process",
@@ -205,6 +205,9 @@ func (e *C01) Run(c *core.Ctx, idx int) {
 	case idx >= p.nTrunc+p.nMut+p.nRand:
 		r := c.Rng(idx)
 		data, desc := gen.Shape(r)
+		if idx%40 == 7 {
+			data, desc = gen.TileShape(r, r.Range(20000, 300000)) // one tiny unit, thousands of times
+		}
 		for _, ei := range EntriesFor(p.pop.entries, gen.KindOf(data)) {
 			rs := mon.NewRS(data)
 			what := "clean"
